@@ -59,12 +59,18 @@ def main():
   mine = [p for j, p in enumerate(pairs) if j % nshards == shard]
   qt = [qf.make_quantizer(qkeras_quantizer(o)) for o in ops]
   ns = [1, 2, 3, 4, 5, 7, 8, 9, 16, 17, 27, 31, 32, 64, 100, 1024, 1025, 4096, 4097]
+  prev = None
   for (a, b) in mine:
     w, x = ops[a], ops[b]
     try:
       m = mf.make_multiplier(qt[a], qt[b])
       out = reported(m.output)
       events.append({"op": "mul", "w": w, "x": x, "out": out, "kind": m.implemented_as()})
+      # history: one factory serves many operand pairs - the type reported for an EARLIER pair must not change when a
+      # later pair is built (results are independent objects)
+      if prev is not None:
+        events.append({"op": "alias", "same": int(reported(prev[0].output) == prev[1])})
+      prev = (m, out)
     except Exception as e:
       errors.append({"k": "exc", "op": "mul", "w": w, "x": x, "exc": repr(e)[:200]})
       continue
